@@ -338,7 +338,7 @@ func (ka *eccKeyAgreementGM) generateServerKeyExchange(config *Config, signCert,
 }
 
 func (ka *eccKeyAgreementGM) processClientKeyExchange(config *Config, cert *Certificate, ckx *clientKeyExchangeMsg, version uint16) ([]byte, error) {
-	if len(ckx.ciphertext) == 0 {
+	if len(ckx.ciphertext) < 2 {
 		return nil, errClientKeyExchange
 	}
 
@@ -433,7 +433,10 @@ func (ka *eccKeyAgreementGM) generateClientKeyExchange(config *Config, clientHel
 	if err != nil {
 		return nil, nil, err
 	}
-	pubKey := ka.encipherCert.PublicKey.(*ecdsa.PublicKey)
+	pubKey, ok := ka.encipherCert.PublicKey.(*ecdsa.PublicKey)
+	if !ok {
+		return nil, nil, errors.New("tls: server's encryption certificate does not contain an EC public key")
+	}
 	sm2PubKey := &sm2.PublicKey{Curve: pubKey.Curve, X: pubKey.X, Y: pubKey.Y}
 	encrypted, err := sm2.Encrypt(sm2PubKey, preMasterSecret, config.rand(), sm2.C1C3C2)
 	if err != nil {
